@@ -1,8 +1,8 @@
 --------------------------- MODULE Trace_PromExport ---------------------------
 (* code -> spec (and the judging half of spec -> code): validates what real        *)
 (* scrapes of the real exporter exposed against PromModel.  Lines:                 *)
-(*   New{sc, opts, res}                  fresh exporter + provider (family cache empty)        *)
-(*   Env{insts, ases, bounds, streams}   instruments / attribute sets so far and the SDK's own *)
+(*   New{sc,opts,res,ases,bounds,scopes} fresh exporter + provider (family cache empty)        *)
+(*   Env{insts, streams}                 instruments created so far and the SDK's own          *)
 (*                                       cumulative view (Reader.Collect of the same exporter) *)
 (*   Scrape{via, obs}                    one scrape (direct Collect or registry Gather) taken  *)
 (*                                       in the state described by the last Env line           *)
@@ -16,10 +16,10 @@
 (* it exactly, if there is one.                                                    *)
 EXTENDS PromModel, TraceKit
 
-VARIABLES l, env, streams, caches
-vars == <<l, env, streams, caches>>
+VARIABLES l, env, streams, caches, nbad
+vars == <<l, env, streams, caches, nbad>>
 
-NoEnv == [o |-> <<>>, res |-> <<>>, insts |-> <<>>, ases |-> <<>>, bounds |-> <<>>]
+NoEnv == [o |-> <<>>, res |-> <<>>, insts |-> <<>>, ases |-> <<>>, bounds |-> <<>>, scopes |-> <<>>]
 
 PermSeqs(S) == {f \in [1..Cardinality(S) -> S] : Range(f) = S}
 Scopes(sts) == {sts[i].scope : i \in 1..Len(sts)}
@@ -33,33 +33,43 @@ OKs(R) == {r \in R : r.v.why = "ok"}
 Result(ok, R, v) == [ok |-> ok, caches |-> {r.cache : r \in R}, v |-> v,
                      dev |-> IF R = {} THEN {} ELSE (CHOOSE r \in R : \A q \in R : Cardinality(r.dv) <= Cardinality(q.dv)).dv]
 
-Judge(obs) ==
+(* fast: after MaxSearch unexplained scrapes the verdict of the run is settled; the expensive  *)
+(* search for an explanation is skipped (later lines may then be reported although an          *)
+(* alternative would explain them)                                                              *)
+MaxSearch == 25
+Judge(obs, fast) ==
   LET singles == {{d} : d \in Deviations}
-      r0 == Cands({NameMap(env, Canon)}, {{}}, obs)
-      r1 == Cands(NameMaps(env), {{}}, obs)
-      r2 == Cands(NameMaps(env), singles, obs)
-      r3 == Cands(NameMaps(env), (SUBSET Deviations) \ ({{}} \cup singles), obs)
+      canon == {NameMap(env, Canon)}
+      r0 == Cands(canon, {{}}, obs)                       \* the literal reading
+      r1 == Cands(canon, singles, obs)                    \* ... with one named deviation (cheap, tried early)
+      r2 == Cands(NameMaps(env), {{}}, obs)               \* every admissible naming alternative
+      r3 == Cands(NameMaps(env), singles, obs)
+      r4 == Cands(NameMaps(env), (SUBSET Deviations) \ ({{}} \cup singles), obs)
       strict == (CHOOSE r \in r0 : TRUE).v
   IN IF OKs(r0) # {} THEN Result(TRUE, OKs(r0), strict)
-     ELSE IF OKs(r1) # {} THEN Result(TRUE, OKs(r1), strict)
-     ELSE IF OKs(r2) # {} THEN Result(FALSE, OKs(r2), strict)
+     ELSE IF OKs(r1) # {} THEN Result(FALSE, OKs(r1), strict)
+     ELSE IF fast THEN [ok |-> FALSE, caches |-> {r.cache : r \in r0}, v |-> strict, dev |-> {"none"}]
+     ELSE IF OKs(r2) # {} THEN Result(TRUE, OKs(r2), strict)
      ELSE IF OKs(r3) # {} THEN Result(FALSE, OKs(r3), strict)
+     ELSE IF OKs(r4) # {} THEN Result(FALSE, OKs(r4), strict)
      ELSE [ok |-> FALSE, caches |-> {r.cache : r \in r0}, v |-> strict, dev |-> {"none"}]
 
-Init == l = 1 /\ env = NoEnv /\ streams = <<>> /\ caches = {{}}
+Init == l = 1 /\ env = NoEnv /\ streams = <<>> /\ caches = {{}} /\ nbad = 0
 
 TNew == /\ l <= Len(Trace) /\ Trace[l].ev = "New"
-        /\ env' = [NoEnv EXCEPT !.o = Trace[l].opts, !.res = Trace[l].res]
-        /\ streams' = <<>> /\ caches' = {{}} /\ l' = l + 1
+        /\ env' = [NoEnv EXCEPT !.o = Trace[l].opts, !.res = Trace[l].res, !.ases = Trace[l].ases, !.bounds = Trace[l].bounds,
+                                 !.scopes = Trace[l].scopes]
+        /\ streams' = <<>> /\ caches' = {{}} /\ l' = l + 1 /\ UNCHANGED nbad
 
 TEnv == /\ l <= Len(Trace) /\ Trace[l].ev = "Env"
-        /\ env' = [env EXCEPT !.insts = Trace[l].insts, !.ases = Trace[l].ases, !.bounds = Trace[l].bounds]
-        /\ streams' = Trace[l].streams /\ l' = l + 1 /\ UNCHANGED caches
+        /\ env' = [env EXCEPT !.insts = Trace[l].insts]
+        /\ streams' = Trace[l].streams /\ l' = l + 1 /\ UNCHANGED <<caches, nbad>>
 
 TScrape == /\ l <= Len(Trace) /\ Trace[l].ev = "Scrape"
            /\ LET obs == Trace[l].obs
-                  j == Judge(obs) IN
+                  j == Judge(obs, nbad >= MaxSearch) IN
               /\ caches' = j.caches
+              /\ nbad' = IF j.dev = {"none"} THEN nbad + 1 ELSE nbad
               /\ (~j.ok) => Viol([line |-> l, sc |-> Trace[l].sc, via |-> Trace[l].via, why |-> j.v.why, fam |-> j.v.fam,
                                   devs |-> j.dev, panic |-> obs.panic, gerr |-> obs.gerr])
            /\ l' = l + 1 /\ UNCHANGED <<env, streams>>
@@ -70,7 +80,7 @@ TCScrape == /\ l <= Len(Trace) /\ Trace[l].ev = "CScrape"
                    v == PartialVerdict(e, obs) IN
                (v.why # "ok") => Viol([line |-> l, sc |-> Trace[l].sc, via |-> "concurrent", why |-> v.why, fam |-> v.fam,
                                        devs |-> {"none"}, panic |-> obs.panic, gerr |-> obs.gerr])
-            /\ l' = l + 1 /\ UNCHANGED <<env, streams, caches>>
+            /\ l' = l + 1 /\ UNCHANGED <<env, streams, caches, nbad>>
 
 TDone == l = Len(Trace) + 1 /\ Accepted(l) /\ UNCHANGED vars
 
